@@ -98,10 +98,14 @@ func runClose(id string, c closePoint) runner.Result {
 		var when string
 		fmt.Sscanf(c.point, "write#%d:%s", &k, &when)
 		wh := simnet.Before
-		if when == "after" {
+		if when == "after" || when == "after-ok" {
 			wh = simnet.After
 		}
 		g := end.GateWriteIdx(k, wh)
+		// after-ok: the transport has taken all the bytes of the write and reports success for it
+		// even though it is closed meanwhile (a real Write that has handed everything over does)
+		g.SucceedOnClose = when == "after-ok"
+		g.HoldThroughClose = when == "after-ok" // ... and returns only after the close has been processed
 		reachedCh, release = g.Reached(), g.Release
 	} else {
 		p := x.Rig.Dir.ParkAt(c.point, end, c.nth)
@@ -116,6 +120,7 @@ func runClose(id string, c closePoint) runner.Result {
 		return runner.Inconcl(id, "watchdog: "+c.String())
 	}
 	// issue the close while the goroutine is parked
+	closeAt := simnet.Tick()
 	var closers []*rig.Op
 	switch c.action {
 	case "conn.Close":
@@ -128,7 +133,9 @@ func runClose(id string, c closePoint) runner.Result {
 		x.Rig.StopServe()
 	}
 	census.Quiesce(rig.Watchdog)
-	if !strings.HasPrefix(c.point, "write#") {
+	if !strings.HasPrefix(c.point, "write#") || strings.HasSuffix(c.point, ":after-ok") {
+		// (after-ok: the held write returns, successfully, now that the close has been processed as far
+		// as it can be without it)
 		release()
 	}
 	// a write parked inside the transport is pending I/O: closing must make the
@@ -164,6 +171,23 @@ func runClose(id string, c closePoint) runner.Result {
 		}
 		if l.Stream != nil && !rig.IsClosed(l.Stream.Context().Done()) {
 			failf("the context of the client stream of rpc %d is not done after the close", l.Script.Tag)
+		}
+	}
+	// "makes every pending call fail": a call of the closed side that was in progress (inside the
+	// transport) when the close was issued must not report success afterwards, even if the transport
+	// still completed its write
+	closedSide := byte('c')
+	if c.action == "serve-cancel" {
+		closedSide = 's'
+	}
+	if strings.HasSuffix(c.point, ":after-ok") && reached && ((c.role == "client") == (closedSide == 'c')) {
+		for _, l := range x.Logs() {
+			for _, e := range l.Snapshot() {
+				pendingKind := e.Op == "send" || e.Op == "send-undecodable" || e.Op == "closesend" || e.Op == "flush" || e.Op == "invoke"
+				if e.Side == closedSide && pendingKind && e.Returned && e.Call < closeAt && e.Ret > closeAt && e.Err == nil {
+					failf("rpc %d %c:%s was in progress inside the transport when the close was issued and returned nil afterwards (every pending call must fail)", l.Script.Tag, e.Side, e.Op)
+				}
+			}
 		}
 	}
 	// the close of one side tears the other side down through the transport
@@ -770,10 +794,10 @@ func gen(tier string, seed uint64) []runner.Scenario {
 				pts = append(pts, closePoint{w: wi, role: parts[0], point: parts[1], nth: occ[t], soft: soft})
 			}
 			for k := 0; k < wa; k++ {
-				pts = append(pts, closePoint{w: wi, role: "client", point: fmt.Sprintf("write#%d:before", k), soft: soft}, closePoint{w: wi, role: "client", point: fmt.Sprintf("write#%d:after", k), soft: soft})
+				pts = append(pts, closePoint{w: wi, role: "client", point: fmt.Sprintf("write#%d:before", k), soft: soft}, closePoint{w: wi, role: "client", point: fmt.Sprintf("write#%d:after", k), soft: soft}, closePoint{w: wi, role: "client", point: fmt.Sprintf("write#%d:after-ok", k), soft: soft})
 			}
 			for k := 0; k < wb; k++ {
-				pts = append(pts, closePoint{w: wi, role: "server", point: fmt.Sprintf("write#%d:before", k), soft: soft}, closePoint{w: wi, role: "server", point: fmt.Sprintf("write#%d:after", k), soft: soft})
+				pts = append(pts, closePoint{w: wi, role: "server", point: fmt.Sprintf("write#%d:before", k), soft: soft}, closePoint{w: wi, role: "server", point: fmt.Sprintf("write#%d:after", k), soft: soft}, closePoint{w: wi, role: "server", point: fmt.Sprintf("write#%d:after-ok", k), soft: soft})
 			}
 			for _, p := range pts {
 				actions := []string{"conn.Close", "conn.Close x2", "serve-cancel"}
